@@ -17,7 +17,7 @@ from . import common, cum, rel, tlc
 
 TIERS = {
     "quick": dict(depth=2, sample=150, sim_num=40, sim_depth=3, nrows=6, maxcuts=3, layouts_deep=6),
-    "thorough": dict(depth=2, sample=1500, sim_num=600, sim_depth=4, nrows=7, maxcuts=3, layouts_deep=24),
+    "thorough": dict(depth=2, sample=1500, sim_num=120, sim_depth=3, nrows=7, maxcuts=3, layouts_deep=24),
 }
 SKIP_OPS = {"tail", "parts", "repart", "shuffle"}     # no pandas meaning / layout-only operators
 
